@@ -742,6 +742,9 @@ type FirstHit struct {
 	Hit   func(e *RF) *RF // the test at index e
 	Val   func(e *RF) *RF // value returned when the test holds at e
 	Miss  *RF             // value returned when no index qualifies
+	Down  bool            // the search runs from First downwards and is exhausted when e < Low
+	Low   *RF
+	Pair  int // the test reads two adjacent elements: e and e+Pair (±1)
 }
 
 // FirstHitScan decides that the loop headed by hdr in fc is the search sp,
@@ -762,6 +765,7 @@ func (b *B) FirstHitScan(rule, construct, where string, fc *FC, hdr *ssa.BasicBl
 	cont := fc.ContinueCond(hdr)
 	// the index read by the tests
 	var e *RF
+	var cands []*RF
 	for _, src := range append([]*RF{cont}, func() []*RF {
 		var cs []*RF
 		for _, ee := range exits {
@@ -773,12 +777,37 @@ func (b *B) FirstHitScan(rule, construct, where string, fc *FC, hdr *ssa.BasicBl
 			if !at.Args[0].Equal(sp.Base) || len(fc.loopPhis(at.Args[1])) == 0 {
 				continue
 			}
-			if e != nil && !e.Equal(at.Args[1]) {
-				r.Fail(rule, construct, where, "the loop tests elements at several indices: "+clip(e.String(), 60)+" and "+clip(at.Args[1].String(), 60))
-				return false
+			dup := false
+			for _, c := range cands {
+				if c.Equal(at.Args[1]) {
+					dup = true
+				}
 			}
-			e = at.Args[1]
+			if !dup {
+				cands = append(cands, at.Args[1])
+			}
 		}
+	}
+	switch {
+	case len(cands) == 1 && sp.Pair == 0:
+		e = cands[0]
+	case len(cands) == 2 && sp.Pair != 0:
+		lo, hi := cands[0], cands[1]
+		if lo.Sub(hi).Equal(s.Int(1)) {
+			lo, hi = hi, lo
+		}
+		if !hi.Sub(lo).Equal(s.Int(1)) {
+			r.Fail(rule, construct, where, "the two elements compared are not adjacent: "+clip(lo.String(), 60)+" and "+clip(hi.String(), 60))
+			return false
+		}
+		if sp.Pair > 0 {
+			e = lo
+		} else {
+			e = hi
+		}
+	case len(cands) > 1:
+		r.Fail(rule, construct, where, "the loop tests elements at several indices: "+clip(cands[0].String(), 60)+" and "+clip(cands[1].String(), 60))
+		return false
 	}
 	if e == nil {
 		r.Fail(rule, construct, where, "the loop does not test the elements of "+clip(sp.Base.String(), 60))
@@ -789,8 +818,12 @@ func (b *B) FirstHitScan(rule, construct, where string, fc *FC, hdr *ssa.BasicBl
 		r.Fail(rule, construct, where, "the first index examined is "+clip(ei.String(), 100)+", not "+clip(sp.First.String(), 100))
 		return false
 	}
-	if !en.Sub(e).Equal(s.Int(1)) {
-		r.Fail(rule, construct, where, "the index does not advance by one: "+clip(en.String(), 100))
+	wantStep := s.Int(1)
+	if sp.Down {
+		wantStep = s.Int(-1)
+	}
+	if !en.Sub(e).Equal(wantStep) {
+		r.Fail(rule, construct, where, "the index does not move by one in the stated direction: "+clip(en.String(), 100))
 		return false
 	}
 	hit := sp.Hit(e)
@@ -798,7 +831,12 @@ func (b *B) FirstHitScan(rule, construct, where string, fc *FC, hdr *ssa.BasicBl
 		r.Fail(rule, construct, where, "the loop can go on past an index at which the test holds: continues while "+clip(cont.String(), 200))
 		return false
 	}
-	exhausted := s.Cmp("<=", sp.N, e)
+	var exhausted *RF
+	if sp.Down {
+		exhausted = s.Cmp("<", e, sp.Low)
+	} else {
+		exhausted = s.Cmp("<=", sp.N, e)
+	}
 	for _, ee := range exits {
 		v := fc.gatedReturns(ee.To, 0, nil)
 		if v == nil {
